@@ -28,6 +28,13 @@ class World(object):
     """Real arrays + InletBase/OutletBase, reusable across histories."""
 
     def __init__(self, flow, dim, props_to_copy, with_ghost):
+        # with_ghost == 'by': no ghost inlet, but every array also holds a
+        # ghost-tagged bystander (as a periodic / mirror domain or a parallel
+        # run would leave there) that must survive all transfers untouched
+        from vlib.build import reset_group_counter
+        reset_group_counter()
+        self.bystanders = with_ghost == 'by'
+        with_ghost = with_ghost is True
         from compyle.config import get_config
         get_config().use_openmp = False
         from pysph.base.particle_array import ParticleArray
@@ -98,6 +105,45 @@ class World(object):
                                                              1)
                                       for r in recs])
             pa.add_particles(**kw)
+        if self.bystanders:
+            for k, nm in enumerate(('inlet', 'fluid', 'outlet')):
+                self.pas[nm].add_particles(**self._bystander(k))
+                self.pas[nm].align_particles()
+
+    def _bystander(self, k):
+        # in the middle of its own zone, far away sideways
+        s = (-0.5 * self.L, 0.5 * self.fl, self.fl + 0.5 * self.L)[k]
+        pos = s * self.flow + 7.0 * self._perp()
+        uid = 900 + k
+        kw = dict(x=[pos[0]], y=[pos[1]], z=[pos[2]], tag=[2])
+        for p in PROPS:
+            kw[p] = list(value(uid, p)) if p == 'q3' else [value(uid, p)]
+        return kw
+
+    def bystanders_ok(self):
+        if not self.bystanders:
+            return None
+        for k, nm in enumerate(('inlet', 'fluid', 'outlet')):
+            pa = self.pas[nm]
+            uid = pa.get('uid', only_real_particles=False)
+            idx = [i for i in range(len(uid)) if uid[i] >= 900]
+            want = self._bystander(k)
+            if len(idx) != 1:
+                return '%s holds %d ghost bystanders (1 placed)' % (nm,
+                                                                   len(idx))
+            i = idx[0]
+            for p, v in want.items():
+                st = pa.stride.get(p, 1)
+                got = pa.get(p, only_real_particles=False)[i * st:(i + 1) * st]
+                if list(np.asarray(got, dtype=float)) != \
+                        list(np.asarray(v, dtype=float)):
+                    return 'ghost bystander of %s: %s is %r, was %r' % (
+                        nm, p, list(got), v)
+            nr = pa.num_real_particles
+            tags = pa.get('tag', only_real_particles=False)
+            if i < nr or any(t != 0 for t in tags[:nr]):
+                return 'ghost bystander of %s inside the real range' % nm
+        return None
 
     def _perp(self):
         f = self.flow
@@ -115,6 +161,8 @@ class World(object):
                 np.zeros((0, 3))
             recs = []
             for i in range(n):
+                if self.bystanders and g('uid')[i] >= 900:
+                    continue
                 rec = dict(s=float(np.dot(pos[i], self.flow)))
                 for p in PROPS:
                     if p == 'q3':
@@ -301,7 +349,7 @@ def _job(args):
                         world.inlet.update(0.0, 0.1, stage)
                         world.outlet.update(0.0, 0.1, stage)
                         got = actual_records(world)
-                        bad = world.lengths_ok()
+                        bad = world.lengths_ok() or world.bystanders_ok()
                     except Exception as e:  # noqa
                         viol.setdefault('io:exception:%s' % type(e).__name__,
                                         (repr(e), dict(hist=hist + [(mv,
@@ -350,11 +398,13 @@ def run(ctx):
              ('+z', 3), ('skew', 3)]
     for flow, dim in flows:
         for ptc in (None, ['x', 'y', 'z', 'u', 'uid', 'q3', 'h']):
-            for ghost in (False, True):
+            for ghost in (False, True, 'by'):
                 for ii in range(4):
                     if ptc is not None and ii not in (0, 3):
                         continue
                     if ghost and ii != 0:
+                        continue
+                    if ghost == 'by' and flow not in ('+x', '+y', 'skew'):
                         continue
                     jobs.append((flow, dim, ptc, ghost, depth, ii))
     scripts = manager_scripts(3 if ctx.thorough else 2)
@@ -363,10 +413,22 @@ def run(ctx):
         k = max(1, len(scripts) // 6)
         for i in range(0, len(scripts), k):
             mjobs.append((fam, scripts[i:i + k]))
-    both = map_jobs(lambda j: _job(j[1]) if j[0] == 'b' else
-                    _manager_job(j[1]),
-                    [('b', j) for j in jobs] + [('m', j) for j in mjobs],
+    alljobs = [('b', j) for j in jobs] + [('m', j) for j in mjobs]
+    # jobs that need different generated evaluator modules first, so that a
+    # cold code cache is filled by 16 compilers at once instead of by one
+    # while the others wait for its lock
+    first = {}
+    for i, (kind, j) in enumerate(alljobs):
+        mod = (j[0], j[3]) if kind == 'b' else ('m', j[0])
+        first.setdefault(mod, i)
+    order = sorted(range(len(alljobs)),
+                   key=lambda i: (i not in first.values(), i))
+    done = map_jobs(lambda j: _job(j[1]) if j[0] == 'b' else
+                    _manager_job(j[1]), [alljobs[i] for i in order],
                     ctx.ncpu, job_timeout=3000)
+    both = [None] * len(alljobs)
+    for i, r in zip(order, done):
+        both[i] = r
     res = both[:len(jobs)]
     viol = {}
     ns = nt = 0
@@ -405,7 +467,8 @@ def run(ctx):
                     'followed by inlet.update and outlet.update with stage '
                     'active or not; 4 initial populations x 7 flow '
                     'directions (1-3 D) x props_to_copy none/subset x '
-                    'with/without ghost inlet; states deduplicated on '
+                    'with/without ghost inlet / with a ghost-tagged bystander '
+                    'particle in every array; states deduplicated on '
                     '(array, position, id) triples.  In addition, for each '
                     'of the five shipped families a 2-D channel with one '
                     'inlet and two outlets (right and top) is built through '
@@ -473,6 +536,8 @@ def manager_case(family, script):
     update objects come from get_inlet_outlet().  `script`: list of
     (dx, dy) displacements of all inlet and fluid particles (in units of DX),
     each followed by an update of every object.  Returns problems."""
+    from vlib.build import reset_group_counter
+    reset_group_counter()
     import importlib
     from compyle.config import get_config
     get_config().use_openmp = False
@@ -557,27 +622,29 @@ def manager_case(family, script):
             rec[2] += (my if nm in ('fluid', 'outT') else 0.0) * DX
         for o in objs:
             o.update(0.0, 0.1, 1)
-        # expected bookkeeping (zone ids are evaluated once per update)
+        # expected bookkeeping, in the order of the update objects (inlet,
+        # then the outlets in the order given): each object evaluates its
+        # zone ids once, before its own transfer; a copy that enters the
+        # fluid already beyond an outlet plane (a move longer than the fluid
+        # region) is handed on by the outlet update of the same round, and a
+        # particle beyond both planes is taken by the first outlet
         for u, rec in list(model.items()):
             nm, x, y = rec
             if nm == 'inlet' and x > 1e-9:
-                # copy enters the fluid, the original is recycled
                 rec[1] = x - L
                 model[-(u + 1) - 1000 * rnd] = ['fluid', x, y]
                 entered += 1
-            elif nm == 'fluid':
-                # the outlets are updated in the order given: a particle
-                # beyond both planes is taken by the first one
-                if x > FL + 1e-9:
-                    rec[0] = 'outR'
+        for zone, beyond, far in (
+                ('outR', lambda r: r[1] > FL + 1e-9,
+                 lambda r: r[1] > FL + L + 1e-9),
+                ('outT', lambda r: r[2] > H + 1e-9,
+                 lambda r: r[2] > H + L + 1e-9)):
+            for u, rec in list(model.items()):
+                if rec[0] == zone and far(rec):
+                    del model[u]
+                elif rec[0] == 'fluid' and beyond(rec):
+                    rec[0] = zone
                     left += 1
-                elif y > H + 1e-9:
-                    rec[0] = 'outT'
-                    left += 1
-            elif nm == 'outR' and x > FL + L + 1e-9:
-                del model[u]
-            elif nm == 'outT' and y > H + L + 1e-9:
-                del model[u]
         for nm in ('inlet', 'fluid', 'outR', 'outT'):
             pa = arrays[nm]
             got = sorted((round(float(a), 9), round(float(b), 9))
